@@ -149,3 +149,17 @@ func specFreshWriter(w *bufio.Writer) bool {
 	g := ghwr(w)
 	return g.pos == 0 && g.buffered == 0 && g.size > 0
 }
+
+// connOpen: the write side and the transport reader of a ready connection are usable by this
+// goroutine: it holds neither write-side lock and the buffered reader is still attached.
+// Kept by every successful step of the read path (specOKKeeps); a failing step may have
+// closed the connection, which leaves connIdle only.
+func connOpen(c *Conn) bool {
+	return connWritable(c) && c.br != nil
+}
+
+// connWritable: a ready connection whose write-side locks this goroutine does not hold (what a
+// write of a control frame - pong, close echo, error close - from the read path needs).
+func connWritable(c *Conn) bool {
+	return connReady(c) && !gvcHeld(c.writeFrameMu.ch) && !gvcHeld(c.msgWriter.writeMu.ch)
+}
